@@ -177,8 +177,8 @@ def r3_attribution(ctx):
         ok = ok and runs and c.lineno > enclosing_loop(runs[0]).end_lineno
     ctx.check(ok, f.qual + "#save", "files are written after the last step, from the processor that ran, into the run's folder, under the run's suffix" if ok else "exposure output files are not written from the processor that ran / under the run's suffix", where=f, node=cs[0] if cs else f.node)
     sf = ctx.func(f"{OU}:save_to_files")
-    lp = [l for l in loops_in(sf.node) if isinstance(l, ast.For) and enclosing_loop(l) is None]
-    ok = len(lp) == 1 and dotted(lp[0].iter) == "filenames"
+    lp = [l for l in loops_in(sf.node) if isinstance(l, ast.For) and enclosing_loop(l) is None and dotted(expand(sf, l.iter)) == "filenames"]
+    ok = len(lp) == 1 and not lp[0].orelse
     ctx.check(ok, sf.qual + "#loop", "one file per requested name" if ok else "not every requested name is written", where=sf, node=lp[0] if lp else sf.node)
     if ok:
         fv = lp[0].target.id
@@ -323,7 +323,14 @@ def r4_completeness_and_tables(ctx):
     else:
         ad = [v for s_, v in local_defs(sf, acc) if v is not None]
         okd = len(ad) == 1 and norm(ad[0]) in ("defaultdict(list)", "collections.defaultdict(list)")
-        comp = [d_ for d_ in ast.walk(sf.node) if isinstance(d_, ast.DictComp) and norm(d_.generators[0].iter) == f"{acc}.items()" and not d_.generators[0].ifs]
+        from sa.astutil import accumulator_comp as _acc_comp
+
+        cands = [d_ for d_ in ast.walk(sf.node) if isinstance(d_, ast.DictComp)]
+        for nm_ in sorted({t_.id for st_ in ast.walk(sf.node) if isinstance(st_, (ast.Assign, ast.AnnAssign)) for t_ in (st_.targets if isinstance(st_, ast.Assign) else [st_.target]) if isinstance(t_, ast.Name)}):
+            c_ = _acc_comp(sf.node, nm_)  # `d = {}; for k, v in acc.items(): d[k] = ...` is the same comprehension
+            if isinstance(c_, ast.DictComp):
+                cands.append(c_)
+        comp = [d_ for d_ in cands if norm(d_.generators[0].iter) == f"{acc}.items()" and not d_.generators[0].ifs and len(d_.generators) == 1]
         ctx.check(okd and bool(comp), sf.qual + "#report-all-buckets", "the report is built from every accumulated bucket entry" if okd and comp else "the report is not built from all accumulated entries", where=sf, node=comp[0] if comp else sf.node)
     for fn in ctx.repo.all_functions():
         if fn.module.name not in (OU, OO):
